@@ -304,9 +304,6 @@ func C02_equiv() {
 	}
 	sh := genShape(budget, depth)
 	sym.Assume(!sh.conflicts("Query", sh.sels))
-	if sh.hasMergedObjects("Query", sh.sels) {
-		sym.Cut() // C01's recorded finding, the same under every strategy
-	}
 	var log []string
 	q := newGraphWith(&log, maxList, true)
 	c02Eager(q, map[*node]bool{})
